@@ -102,8 +102,11 @@ type progOpts struct {
 	customFunc  string                // name of a user-installed int -> int function to call now and then
 	onTemplates func(ts []*gtemplate) // receives the generated templates (params of every template, not only the entry)
 	// C07
-	allParams  bool // data sets supply optional params too
-	totalCalls bool // every call passes every callee param (optional ones too); no data="$expr"
+	allParams    bool     // data sets supply optional params too
+	totalCalls   bool     // every call passes every callee param (optional ones too); no data="$expr"
+	maxTemplates int      // > 0: bundles of 1..maxTemplates templates instead of 1..4
+	shapes       bool     // print-directive chains of every length 0..8 (marker / cancelling / non-cancelling mixes), list literals of 0..8 items
+	chainExtra   []string // user-installed non-cancelling directives usable in chains, e.g. "|bang"
 }
 
 type progGen struct {
@@ -188,6 +191,13 @@ func (g *progGen) expr(env genv, k kind, d int) string {
 		case kFloat:
 			return g.floatLit()
 		case kListInt:
+			if g.o.shapes {
+				items := []string{g.intLit()}
+				for n := g.r.Intn(8); n > 0; n-- {
+					items = append(items, g.intLit())
+				}
+				return "[" + strings.Join(items, ", ") + "]"
+			}
 			return "[" + g.intLit() + ", " + g.intLit() + ", " + g.intLit() + "]"
 		case kListStr:
 			return "[" + g.strLit() + ", " + g.strLit() + "]"
@@ -432,7 +442,36 @@ func (r0 *progGen) printable() []kind { return []kind{kInt, kStr, kBool, kFloat,
 
 var rawTexts = []string{"text ", "a b", "<p>", "</p>", " - ", "x", "  two  spaces ", "&amp;", "\n", "line1\n  line2", "é", "\"q\"", "'", "1 < 2"}
 
+// chain: a print-directive list of 0..8 entries.  The parser builds the list
+// with append, so its spare capacity depends on the length; whether a backend
+// appends to it depends on whether a directive cancels autoescaping and on the
+// marker directives (id, noAutoescape) being filtered out.
+func (g *progGen) chain() string {
+	n := g.r.Intn(9)
+	kind := g.r.Intn(4)
+	nonc := append([]string{"|truncate:9", "|truncate:20,false", "|truncate:6,true", "|truncate:40"}, g.o.chainExtra...)
+	markers := []string{"|id", "|noAutoescape"}
+	canc := []string{"|escapeHtml", "|escapeUri", "|escapeJsString", "|json", "|changeNewlineToBr", "|insertWordBreaks:4"}
+	var sb strings.Builder
+	for i := 0; i < n; i++ {
+		switch {
+		case kind == 1 && g.r.Chance(30):
+			sb.WriteString(g.r.Pick(markers))
+		case kind == 2 && g.r.Chance(35), kind == 3:
+			sb.WriteString(g.r.Pick(canc))
+		default:
+			sb.WriteString(g.r.Pick(nonc))
+		}
+	}
+	g.feat(fmt.Sprintf("chain-len:%d", n))
+	g.feat([]string{"chain:non-cancelling", "chain:with-markers", "chain:mixed", "chain:cancelling"}[kind])
+	return sb.String()
+}
+
 func (g *progGen) directive() string {
+	if g.o.shapes {
+		return g.chain()
+	}
 	if !g.o.directives || !g.r.Chance(25) {
 		return ""
 	}
@@ -825,6 +864,9 @@ func (r *progGen) unusedFix(t *gtemplate, used map[string]*bool) string {
 func genBundle(r *hx.Rand, o progOpts) (files []srcFile, entry string, dataSets []data.Map, feats map[string]int) {
 	g := &progGen{r: r, o: o, feats: map[string]int{}}
 	nT := 1 + r.Intn(4)
+	if o.maxTemplates > 0 {
+		nT = 1 + r.Intn(o.maxTemplates)
+	}
 	nss := []string{"ns.one", "ns.two.deep", "other"}[:1+r.Intn(3)]
 	paramPool := []gparam{{"a", kInt, false}, {"b", kStr, false}, {"c", kListInt, false}, {"x", kInt, false}, {"s", kStr, false}, {"flag", kBool, false},
 		{"f", kFloat, false}, {"rec", kRec, false}, {"opt", kOptInt, true}, {"names", kListStr, false}, {"el", kEList, false}, {"i", kInt, false}}
